@@ -110,8 +110,15 @@ def doServe (mode world impl : String) : String :=
     let fuel := 64 + 4 * p.ntokens
     let parts := p.invs.map fun inv =>
       let r := Srv.run p.W fuel p.services inv
-      if mode == "C09" then s!"{inv.tok.id}:{WorldJson.outStr r.out}"
-      else s!"{inv.tok.id}:{WorldJson.outStr r.out}:{"&".intercalate (r.calls.map WorldJson.callStr)}"
+      -- the effects of the receipt are what the handler that ran returned (nothing else has effects)
+      let fxs := match r.out, r.calls with
+        | .ok, c :: _ => match (p.results.find? (fun (kv : Bytes × String) => kv.1 == c.can)).map (fun (kv : Bytes × String) => kv.2) with
+          | some "okfx" => "+f1j0"
+          | some "okjoin" => "+f0j1"
+          | _ => "+f0j0"
+        | _, _ => ""
+      if mode == "C09" then s!"{inv.tok.id}:{WorldJson.outStr r.out}{fxs}"
+      else s!"{inv.tok.id}:{WorldJson.outStr r.out}{fxs}:{"&".intercalate (r.calls.map WorldJson.callStr)}"
     let model := ";".intercalate parts
     let oracle := if model == impl then "ok" else if mode == "C08" || mode == "C09" then "-"
       else s!"fail:through the server the outcome differs from the stateless model: expected {model}"
